@@ -150,13 +150,13 @@ def install(eng):
     HINTS_C = HINTS + ["dom(cache) == NoTargets"]
 
     eng.contract(
-        "gwf.scheduling:schedule._cached_schedule", params={"target": vc.Target}, returns=vc.Status,
+        "gwf.scheduling:schedule._cached_schedule", shards=2, params={"target": vc.Target}, returns=vc.Status,
         captures=CAPT, requires=INV + ["X(target)", "InT(target)"], modifies=MODS,
         ensures=INV + MONO + ["target in cache", "result == cache[target]"],
         raises=EXC, decreases="tup(rank(target), 1)", rec_group="schedule", uses=USES, cover_hints=HINTS_C, serves=["C02", "C05", "C09"])
 
     eng.contract(
-        "gwf.scheduling:schedule._schedule", params={"target": vc.Target}, returns=vc.Status,
+        "gwf.scheduling:schedule._schedule", shards=4, params={"target": vc.Target}, returns=vc.Status,
         captures=CAPT, locals={"submitted_deps": LT},
         requires=INV + ["X(target)", "InT(target)", "target not in cache"], modifies=MODS,
         ensures=STATIC + LOGINV + [
